@@ -11,5 +11,5 @@ cd /verif
 rc=${PIPESTATUS[0]}
 git -C /repo checkout -- .
 # never leave a mutant build behind: rebuild the harness from the restored tree
-(cd /verif/sim && cargo build --release --offline -p yui-sim >/dev/null 2>&1) || echo "WARNING: rebuild after restore failed"
+(cd /verif/sim && env -u RUSTFLAGS CARGO_TARGET_DIR=/verif/target cargo build --release --offline -p yui-sim >/dev/null 2>&1) || echo "WARNING: rebuild after restore failed"
 echo "check exit=$rc"
